@@ -6,6 +6,7 @@ wt = sys.argv[2]
 out = sys.argv[3]
 round2 = len(sys.argv) > 4 and sys.argv[4] == 'round2'
 round3 = len(sys.argv) > 4 and sys.argv[4] == 'round3'
+round4 = len(sys.argv) > 4 and sys.argv[4] == 'round4'
 p = None
 for l in open('/verif/properties.jsonl'):
     d = json.loads(l)
@@ -34,7 +35,9 @@ The two changes should be in different places / of different nature (e.g. one ab
 
 This is a SECOND round: an earlier round already produced the most obvious candidates (a flipped comparison or an off-by-one in the central loop of the main function, a dropped special case). Look elsewhere: helper functions and wrappers the main function relies on, argument / default handling, less-travelled branches and modes named in the statement, sub-claims of the statement that are easy to forget (frame conditions such as 'nothing else changes', symmetry, 'the same when called twice', behaviour at size 0/1/2, ties, NaN, borders), or a change split over two cooperating sites. Each change must still be something a developer could plausibly write.""" if round2 else "") + ("""
 
-This is a THIRD round: two earlier rounds already produced the obvious candidates and a set of helper / frame-condition / call-twice candidates. This time aim for changes whose manifestation depends on SCALE or CONFIGURATION rather than on a single special value: they only show for inputs beyond toy sizes (for example tracks, networks, windows, grids, models or expressions with at least 5-8 elements, several levels of nesting or recursion, many repeated operations), for particular parameter values or modes of the public API (optional arguments, alternative entry points named under 'observable at', non-default settings), or for particular combinations of two inputs (relative sizes, relative order). Small inputs of size 1-4 with default parameters should behave exactly as before. Each change must still be something a developer could plausibly write (a cache, a fast path, a chunked loop, a limit, an early exit, a default).""" if round3 else "") + f"""
+This is a THIRD round: two earlier rounds already produced the obvious candidates and a set of helper / frame-condition / call-twice candidates. This time aim for changes whose manifestation depends on SCALE or CONFIGURATION rather than on a single special value: they only show for inputs beyond toy sizes (for example tracks, networks, windows, grids, models or expressions with at least 5-8 elements, several levels of nesting or recursion, many repeated operations), for particular parameter values or modes of the public API (optional arguments, alternative entry points named under 'observable at', non-default settings), or for particular combinations of two inputs (relative sizes, relative order). Small inputs of size 1-4 with default parameters should behave exactly as before. Each change must still be something a developer could plausibly write (a cache, a fast path, a chunked loop, a limit, an early exit, a default).""" if round3 else "") + ("""
+
+This is a FOURTH round: earlier rounds already produced (1) the obvious candidates in the central loop, (2) helper / frame-condition / call-twice candidates and (3) fast paths and limits that only show at scale or in a non-default mode. This time aim for changes that manifest through the KIND of value or object that is passed, or through ALIASING and leftover STATE, rather than through a special number or a size: for example arguments given as numpy scalars / Python ints instead of floats (or the reverse), negative zero, lists vs tuples vs generators, ids given as strings vs integers, a Track where a TrackCollection is accepted (or the reverse), an object passed twice (the same track as both arguments, the same list reused), a result that shares mutable objects with its input so that a later modification of one silently changes the other, module-level or class-level state left modified after an exception or after an early return, caches keyed by something that can be reused (id(), name, size), default arguments evaluated once. Plain float inputs given once to the documented main entry point should behave exactly as before. Each change must still be something a developer could plausibly write.""" if round4 else "") + f"""
 
 DELIVERABLES (write them under {out}/, create the directory):
   {out}/A/patch.diff   (output of `git -C {wt} diff` for change A alone, relative to the unchanged HEAD)
